@@ -5,7 +5,7 @@ from contracts import pycdlibio as P
 
 
 def units(tier):
-    return [Unit(F.Mastered, {'script': s}) for s in sorted(F.SCRIPTS)] + [Unit(F.Reopened, {'script': s}) for s in sorted(F.SCRIPTS)] + \
+    return [Unit(F.Mastered, {'script': s}) for s in sorted(F.SCRIPTS)] + [Unit(F.Reopened, {'script': s, 'edit': False}) for s in sorted(F.SCRIPTS)] + \
         [Unit(D.RecalcStep), Unit(D.WriterStep), Unit(P.CopyDataYield), Unit(P.InodeOpen, {'location': 1}), Unit(P.InodeOpen, {'location': 2})] + \
         [Unit(D.DRRoundTrip, {'len_fi': n, 'xa': False}) for n in (1, 8, 13)]
 
@@ -28,7 +28,7 @@ META = {
 }
 
 MANIFEST = {
-    'level_text': 'Bounded scenarios executed by the verifier on the real code with SYMBOLIC file contents + the unbounded function-level contracts they rest on: each of seven edit scripts is mastered by the real new/add_*/rm_*/write_fp code inside pyvc; an independent ECMA-119/Joliet/RRIP reader must find exactly the implied ISO9660, Joliet and Rock Ridge trees, names, types, link counts, symlink targets, hidden flags, every file byte for byte, valid structure, disjoint allocation and exact length; the library must reopen its image, show the same, re-master it identically and survive further edits. One defect found and repaired (K38: ".." length).',
+    'level_text': 'Bounded scenarios executed by the verifier on the real code with SYMBOLIC file contents + the unbounded function-level contracts they rest on: each of seven edit scripts is mastered by the real new/add_*/rm_*/write_fp code inside pyvc; an independent ECMA-119/Joliet/RRIP reader must find exactly the implied ISO9660, Joliet and Rock Ridge trees, names, types, link counts, symlink targets, hidden flags, every file byte for byte, valid structure, disjoint allocation and exact length; the library must reopen its image, show the same and re-master it identically (edits of reopened images: C02). One defect found and repaired (K38: ".." length).',
     'level_note': 'Scenario part is bounded (7 scripts) but symbolic in all file contents; trusted: pyvc executing ~15k lines of real code per scenario (mastering output cross-checked byte-identical with CPython), the independent reader, pinned clock. Not decided: arbitrary histories, UDF view.',
     'design_ref': 'DESIGN.md section 4 C01',
 }
